@@ -1,3 +1,5 @@
 SPECIFICATION Spec
-CONSTANT N = 6
+CONSTANTS
+  N = 6
+  UseBaseList = TRUE
 INVARIANT Emit
